@@ -670,6 +670,11 @@ func (v *FV) freshResults(st *State, rt *types.Tuple, prefix string) []TV {
 
 // doCall performs a call in state st and returns result values.
 func (v *FV) doCall(fr *Frame, st *State, cc *ssa.CallCommon, recvTV TV, args []TV, pos string) []TV {
+	if v.useClock && v.quiet == 0 {
+		// logical time: one tick per call made by the function under verification (now() in contracts)
+		v.regArray("CLOCK", fmt.Sprintf("(Array Int %s)", v.idx()))
+		v.wr(st.snap, "CLOCK", "0", v.iadd(v.rd(st.snap, "CLOCK", "0"), v.idxLit(1)))
+	}
 	before := v.sharedInterference(fr, st, pos)
 	res := v.doCall2(fr, st, cc, recvTV, args, pos)
 	if cc.IsInvoke() && v.quiet == 0 {
